@@ -99,11 +99,11 @@ class Saveable:
             self.hashes = load_parcel(hfile)
             
         if tag is None:
-            try:
-                last = list(self.hashes.keys())[-1]
-            except IndexError:
-                last = 0
-            tag = last + 1
+            # one more than the largest integer tag in the directory: an
+            # automatic tag must never replace an existing entry
+            itags = [tg for tg in self.hashes.keys() 
+                     if isinstance(tg, int) and not isinstance(tg, bool)]
+            tag = max(itags) + 1 if len(itags) > 0 else 1
             
 
         # get a unique name for the file            
